@@ -4,6 +4,7 @@ CONSTANTS NS = 2
           CapMod = 2
           MaxSends = 1
           MaxSubs = 1
+          NCallers = 1
           Senders <- MCSenders
           Chans <- MCChans
           Cap <- MCCap
